@@ -78,7 +78,8 @@ def spec : Handler := fun j => do
   pure (Json.mkObj [("lines", linesJson (specFlatten t)),
     ("wf_unquote", Json.bool (wfUnquote t1)), ("wf_kinds", Json.bool (wfKinds t1)),
     ("wf_posonly", Json.bool (wfPosonly [] t1)), ("wf_alias", Json.bool (wfAlias [] t1)),
-    ("wf_stages4", Json.bool (wfStages4 t1))])
+    ("wf_stages4", Json.bool (wfStages4 t1)), ("wf_stages6", Json.bool (wfStages6 t1)),
+    ("stage6_eq_tweak", Json.bool (dumpP id [] [] (stage6 t1) == dumpP id [] [] (tweak [] t1)))])
 
 /-- `c15.seq`: a sequence of flattenings threading the factory state (indices into `trees`). -/
 def seq : Handler := fun j => do
